@@ -20,7 +20,7 @@ BUDGETS = {
     "C04": {"quick": {"procs": 32, "runs": 40}, "thorough": {"procs": 256, "runs": 400}},
     "C06": {"quick": {"procs": 32, "runs": 10}, "thorough": {"procs": 192, "runs": 80}},
     "C07": {"quick": {"procs": 32, "runs": 5}, "thorough": {"procs": 192, "runs": 40}},
-    "C09": {"quick": {"procs": 32, "runs": 12}, "thorough": {"procs": 256, "runs": 100}},
+    "C09": {"quick": {"procs": 32, "runs": 6}, "thorough": {"procs": 256, "runs": 60}},
     "C10": {"quick": {"procs": 32, "runs": 12}, "thorough": {"procs": 192, "runs": 100}},
     "C11": {"quick": {"procs": 32, "runs": 5}, "thorough": {"procs": 192, "runs": 40}},
     "C12": {"quick": {"procs": 32, "runs": 10}, "thorough": {"procs": 256, "runs": 80}},
@@ -105,5 +105,20 @@ META = {
         "running-intersection property and one potential per clique.  Non-trivial = at least one checked conversion; distinct = distinct trace digest.",
         "faults: relabel / insertion_permute (hash-order scheduler), heuristic / order knob (option_swarm)",
         ["equal_factors_present", "unary_factor_present", "fill_in_added", "disconnected_tree_refused"],
+    ),
+    "C09": _m(
+        "one evaluation = one simulated run: a Bayesian network (80%; identifier names with a PRNG-chosen share containing format keywords, "
+        "cardinalities 1..4, 0..5 parents in permuted declared order, entries down to 1e-12 and exact 0/1, a share of tables above 1000 entries) or a "
+        "Markov network (20%, UAI only, factor values over 12 magnitudes), then 1..3 round trips with format in {BIF, XMLBIF, UAI, NET} and route in "
+        "{str(Writer)->Reader(string=), write_*/Reader(path=) on the simulated file system, BayesianNetwork.save/load}; the BIF reader runs under the "
+        "SimParallel stub (n_jobs in {1,2,-1}).  File routes first run fault-free (content on the simulated disk must equal str(Writer); all routes must "
+        "agree), then 1..3 injected faults (ENOSPC/EIO at a PRNG-chosen open / write / close of the save, open / read of the load).  Oracle: same "
+        "variables, edges and state names as strings (UAI: any cardinality-preserving positional bijection) and every conditional table equal by named "
+        "assignment, relative 1e-12 (NET: absolute 5e-5).  Non-trivial = at least one checked round trip; distinct = distinct trace digest.",
+        "faults: io_open_error / io_write_error / io_close_error / io_read_error fired inside save and load calls (an acknowledged save must leave the "
+        "complete file, a failed one must raise, a retry must succeed, a failed read must never yield a wrong model), worker_batching / worker_reorder / "
+        "worker_isolation in the BIF reader, relabel (hash order: the UAI reader builds parent order from a set).  Not injected: torn writes (Python's text "
+        "layer completes a write or raises; the property says nothing about files a crash left incomplete).",
+        ["table_over_1000_entries", "keyword_in_name", "tiny_probability", "card1_variable", "three_or_more_parents"],
     ),
 }
